@@ -24,6 +24,15 @@ def plan(quick):
         {"proto": "cmp-keygen", "n": 3, "t": 1, "kinds": ["fault"], "alts": ["null", "absent"], "pool": True, "fieldwise": True, "limit": 20 if quick else None},
         {"proto": "cmp-sign", "n": 3, "t": 2, "kinds": ["fault"], "alts": ["null", "absent"], "pool": True, "fieldwise": True, "limit": 12 if quick else None},
     ]
+    # announced counts of the hand-written binary encodings (polynomial commitments): 2^32-1, 2^31 and the overflow
+    # points floor(2^32 / k) + 1 of every plausible element size k
+    p += [
+        {"proto": "frost-keygen", "n": 3, "t": 1, "kinds": ["fault"], "alts": ["len*"]},
+        {"proto": "frost-refresh", "n": 3, "t": 1, "kinds": ["fault"], "alts": ["len*"], "limit": 150 if quick else None},
+    ]
+    if not quick:
+        p += [{"proto": "cmp-keygen", "n": 3, "t": 1, "kinds": ["fault"], "alts": ["len*"], "limit": 240},
+              {"proto": "taproot-keygen", "n": 3, "t": 1, "kinds": ["fault"], "alts": ["len*"]}]
     if not quick:
         p += [
             {"proto": "cmp-refresh", "n": 3, "t": 1, "kinds": ["fault"], "alts": ["null", "absent"], "pool": True, "fieldwise": True},
